@@ -71,14 +71,25 @@ func TestC17(t *testing.T) {
 								if auto {
 									tls = "auto"
 								}
-								cells = append(cells, Cell{
-									Name:    fmt.Sprintf("host-half legacy=%d versioned=%v AutoMTLS=%v mux=%v SkipHostEnv=%v group=%q ports=%v ambient=[%s]", vc.legacy, vc.vers, auto, mux, skip, grp, ports, an),
-									Plugin:  PluginConf{LegacyProto: "netrpc"},
-									Host:    HostConf{TLS: tls, Mux: mux, Launch: "runner", Legacy: vc.legacy, Versions: vc.vers, SkipHostEnv: skip, Group: grp, MinPort: ports[0], MaxPort: ports[1]},
-									Ops:     []string{"env"},
-									Ambient: a,
-								})
-								kind = append(kind, "host")
+								// launch: the first launch of a fresh configuration; a second client built from
+								// the same *ClientConfig; the same client started again after a failed runner creation
+								for _, how := range []string{"first", "reuse", "retry"} {
+									if how != "first" && len(sub) == 2 {
+										continue
+									}
+									op := "env"
+									if how != "first" {
+										op += ":" + how
+									}
+									cells = append(cells, Cell{
+										Name:    fmt.Sprintf("host-half launch=%s legacy=%d versioned=%v AutoMTLS=%v mux=%v SkipHostEnv=%v group=%q ports=%v ambient=[%s]", how, vc.legacy, vc.vers, auto, mux, skip, grp, ports, an),
+										Plugin:  PluginConf{LegacyProto: "netrpc"},
+										Host:    HostConf{TLS: tls, Mux: mux, Launch: "runner", Legacy: vc.legacy, Versions: vc.vers, SkipHostEnv: skip, Group: grp, MinPort: ports[0], MaxPort: ports[1]},
+										Ops:     []string{op},
+										Ambient: a,
+									})
+									kind = append(kind, "host")
+								}
 							}
 						}
 					}
@@ -178,7 +189,7 @@ func TestC17(t *testing.T) {
 		if (eff["PLUGIN_CLIENT_CERT"] != "") != (c.Host.TLS == "auto") {
 			bad("PLUGIN_CLIENT_CERT present=%v but AutoMTLS=%v", eff["PLUGIN_CLIENT_CERT"] != "", c.Host.TLS == "auto")
 		}
-		if c.Host.TLS == "auto" && eff["PLUGIN_CLIENT_CERT"] == c.Ambient["PLUGIN_CLIENT_CERT"] {
+		if c.Host.TLS == "auto" && eff["PLUGIN_CLIENT_CERT"] != "" && eff["PLUGIN_CLIENT_CERT"] == c.Ambient["PLUGIN_CLIENT_CERT"] {
 			bad("the client certificate handed to the command is the host's inherited one, not this client's")
 		}
 		if (eff["PLUGIN_MULTIPLEX_GRPC"] != "") != c.Host.Mux {
